@@ -621,6 +621,9 @@ func (db *ContractDB) loadFile(path, pkgPrefix string) {
 				continue
 			}
 			pd.Body = e
+			if prev, dup := db.Preds[pd.Name]; dup && prev.Src != pd.Src {
+				fail(l.n, "predicate %s is already defined (predicate names are global across packages)", pd.Name)
+			}
 			db.Preds[pd.Name] = pd
 		case strings.HasPrefix(t, "ghost field "):
 			m := reGhost.FindStringSubmatch(t)
